@@ -357,11 +357,11 @@ def rule_r5(ctx) -> List[R.Inst]:
     good = False
     if A and B and len(A) == 1 and len(B) == 1:
         a, b = next(iter(A)), next(iter(B))
-        if a.base == b.base and a.elt == "_" and b.elt == "_" and len(a.filters) == 1 and len(b.filters) == 1 and \
+        if a.base == b.base and a.elt == b.elt and len(a.filters) == 1 and len(b.filters) == 1 and \
                 complement(a.filters[0], b.filters[0]):
             good = True
             t = ast.parse(a.filters[0], mode="eval").body
-            tok = "_"
+            tok = a.elt            # '_' or the same element-wise mapping on both sides ('_.strip()')
             contains = (isinstance(t, ast.Compare) and isinstance(t.ops[0], ast.In) and C.const_str(t.left) == "#NOTES:" and
                         unparse(t.comparators[0]) == tok) or \
                        (isinstance(t, ast.Compare) and isinstance(t.left, ast.Call) and call_name_(t.left) == "find" and
